@@ -131,6 +131,9 @@ def check_c03(tier, seed):
     ck.ev.components = core.COMPONENTS_ENC; ck.ev.assumptions = list(ENC_ASSUME)
     core.build('plain'); rng = ck.rng
     gops = [{}, {'hierarchical_levels': 3}, {'hierarchical_levels': 5}, {'pred_structure': 1}, {'pred_structure': 0, 'hierarchical_levels': 3}, {'intra_period_length': 5, 'intra_refresh_type': 2}, {'intra_period_length': 8, 'intra_refresh_type': 1},
+            # intra periods aligned to the mini-GOP, open-GOP (CRA) and closed-GOP (IDR): the intra picture sits at the base of a complete mini-GOP
+            {'intra_period_length': 7, 'intra_refresh_type': 1, 'hierarchical_levels': 3}, {'intra_period_length': 15, 'intra_refresh_type': 1, 'hierarchical_levels': 3}, {'intra_period_length': 7, 'intra_refresh_type': 1, 'hierarchical_levels': 2},
+            {'intra_period_length': 15, 'intra_refresh_type': 1, 'hierarchical_levels': 4}, {'intra_period_length': 7, 'intra_refresh_type': 2, 'hierarchical_levels': 3}, {'intra_period_length': 15, 'intra_refresh_type': 2, 'hierarchical_levels': 4},
             {'enable_overlays': 1, 'hierarchical_levels': 3, 'enc_mode': 6}, {'look_ahead_distance': 17, 'enable_tpl_la': 1}, {'hierarchical_levels': 2}, {'intra_period_length': 0}, {'look_ahead_distance': 0, 'enable_tpl_la': 0}]
     nmax = 34 if tier == 'quick' else 70
     cases = []
@@ -143,7 +146,8 @@ def check_c03(tier, seed):
             elif style < 0.4: step = rng.choice([2, 3, 1001]); pts = [i * step for i in range(n)]
             elif style < 0.47 and n > 2: pts = [i * rng.choice([2, 3, 1001]) for i in range(n)]; ck.ev.probe('non_monotonic_pts')   # not strictly increasing
             # EOS is signalled the documented way (a separate empty buffer, as the reference application and the GStreamer plug-in do)
-            gg = {'pacing': rng.choice(['each', 'each', 'random', 'every_k', 'none']), 'eos': 'separate', 'pts': pts, 'pseed': rng.randint(0, 999)}
+            # "none" (nothing retrieved before EOS) is only legal while the output pools last: longer streams block in send_picture by design (back-pressure, C27)
+            gg = {'pacing': rng.choice(['each', 'each', 'random', 'every_k', 'none' if n <= 6 else 'each']), 'eos': 'separate', 'pts': pts, 'pseed': rng.randint(0, 999)}
             cases.append(mk(ck, g, gen.content(rng, kinds=['mix', 'moving', 'flat'], n=n), n, (64, 64), g=gg, sim=gen.schedule(rng, allow_buggify=(tier != 'quick')), oracles={'decode': 1, 'parse': 0, 'recon_compare': 0, 'order': 1}))
     rs = run_batch(ck, cases, 'plain', 'C03', ('TERM',))
     for c, r in zip(cases, rs):
@@ -290,7 +294,7 @@ def check_c21(tier, seed):
     return ck.finish()
 
 # ---- C27 ---------------------------------------------------------------------------------------------------
-make_diff_evaluator('C27', 'diff_C27', adopt=())
+make_diff_evaluator('C27', 'diff_C27', adopt=('CRASH',))
 @check('C27')
 def check_c27(tier, seed):
     ck = Check('C27', tier, seed)
@@ -319,7 +323,7 @@ def check_c27(tier, seed):
                     ck.add(Violation('C27', r['outcome'], r.get('site', ''), 'drain-after-every-send program did not complete: ' + (r.get('detail') or '')[:300], c, 'plain'), 'single27')
                 else:
                     ck.ev.probe('program_did_not_complete(back-pressure)')
-            for v in relabel(single_violations(c, r, 'plain'), 'C27', ()):
+            for v in relabel(single_violations(c, r, 'plain'), 'C27', ('CRASH',)):   # a call pattern that makes the library crash is pacing-dependent behaviour
                 ck.add(v, 'single')
         if b.get('outcome') != 'ok': continue
         for c, r in zip(fam[1:], frs[1:]):
@@ -349,13 +353,9 @@ C11_CORPUS = [
 ]
 @check('C11')
 def check_c11(tier, seed):
-    def post(ck, c, r):
-        for x in r.get('history', []):
-            if x[1] in ('send', 'eos', 'get_packet', 'drain', 'get_recon') and x[2] not in (0, 0x40001001, 0x40001004) and x[2] < 0:   # negative EbErrorType values are errors
-                ck.add(Violation('C11', 'ORACLE', 'api_error:' + x[1], 'API call %s returned error 0x%x during an accepted encode' % (x[1], x[2] & 0xffffffff), c, 'asan'), 'single')
-    return single_check('C11', tier, seed, {'decode': 0, 'parse': 1, 'order': 0}, C11_CORPUS, 14, 300,
+    return single_check('C11', tier, seed, {'decode': 0, 'parse': 1, 'order': 0, 'api_errors': 1}, C11_CORPUS, 14, 300,
         'whole-encoder runs on the ASan + arithmetic-UBSan build with traps armed (exit/abort/assert/signals), corner configurations (qp 0/63, min==max qp, incompressible noise, odd sizes, tiles, superres, film grain, screen content, 10-bit) plus a configuration swarm; '
-        'oracle: no sanitizer report, no trapped exit/abort, no error packet, no API error, termination decided by the scheduler; distinct = distinct cases', variant='asan', adopt=('TERM', 'CRASH'), nrange=(1, 6), post=post)
+        'oracle: no sanitizer report, no trapped exit/abort, no error packet, no API error, termination decided by the scheduler; distinct = distinct cases', variant='asan', adopt=('TERM', 'CRASH'), nrange=(1, 6))
 
 # ---- C18 / C19 / C20 / C26 -----------------------------------------------------------------------------------
 @check('C18')
